@@ -68,7 +68,7 @@ IO_RE = re.compile(
 CT_RE = re.compile(
     r"(?P<file_type>[CT])(?P<file_number>\d{1,3})"
     r"(:)(?P<element_number>\d{1,3})"
-    r"(.)(?P<sub_element>ACC|PRE|EN|DN|TT|CU|CD|DN|OV|UN|UA)",
+    r"(\.)(?P<sub_element>ACC|PRE|EN|DN|TT|CU|CD|DN|OV|UN|UA)",
     flags=re.IGNORECASE | re.ASCII,
 )
 
